@@ -2,7 +2,7 @@
 (* M level of the AST rewrite for the other statements that bind a variable or end an     *)
 (* activation (transform.PteraTransformer: visit_AugAssign, visit_AnnAssign, visit_NamedExpr, *)
 (* visit_For + generate_interactions, visit_With, visit_ExceptHandler, visit_Import(From),      *)
-(* visit_Return, and the instrumented `return None` appended to the body), in the action vocabulary of  *)
+(* visit_match_case, visit_Return, and the instrumented `return None` appended to the body), in the action vocabulary of  *)
 (* Xform.tla, plus                                                                          *)
 (*     next              a loop iteration begins: the iteration value <<"V">> arrives        *)
 (*     aug               the in-place / binary operation of an augmented assignment          *)
@@ -25,6 +25,7 @@ For(t) == [s |-> "for", t |-> t]
 Except(n) == [s |-> "except", name |-> n]
 With(t) == [s |-> "with", t |-> t, k |-> 3]
 Import(n) == [s |-> "import", name |-> n]
+Match(ns) == [s |-> "match", names |-> ns, k |-> 3]        \* match <subject>: case (<capture patterns ns>): ...
 Return == [s |-> "return", e |-> [e |-> "site", k |-> 2]]
 FallOff == [s |-> "falloff"]
 
@@ -42,6 +43,7 @@ Py2(st) ==
     [] st.s = "except" -> IF st.name = "" THEN <<>> ELSE << <<"bind", st.name, <<"E">>>> >>
     [] st.s = "with" -> << <<"eval", st.k>>, <<"cm_enter">> >> \o (IF st.t = "" THEN <<>> ELSE << <<"bind", st.t, <<"W">>>> >>)
     [] st.s = "import" -> << <<"bind", st.name, <<"M">>>> >>
+    [] st.s = "match" -> << <<"eval", st.k>> >> \o [i \in DOMAIN st.names |-> <<"bind", st.names[i], <<"V", ToString(i - 1)>>>>]
     [] st.s = "return" -> PyEval(st.e) \o << <<"return", <<"V">>>> >>
     [] st.s = "falloff" -> << <<"return", <<"None">>>> >>
 
@@ -51,7 +53,7 @@ After(I, v, src) == IF Instr(I, v) THEN << <<"interact", v, "none", src>>, <<"re
 \* generate_interactions(target): names, tuples / lists of targets, a starred name; stores into objects (attribute,
 \* subscript) are not variable bindings.  LoopTargets = "names-only" is the tree before fix d4bbee3: anything but
 \* names and tuples of names raised NotImplementedError and the whole function could not be instrumented.
-CONSTANTS LoopTargetsSupported, WithRewritten, FallOffRewritten
+CONSTANTS LoopTargetsSupported, WithRewritten, FallOffRewritten, MatchCapturesKnown
 RECURSIVE GenI(_, _, _)
 GenI(t, src, I) ==
   CASE t.t = "name" -> After(I, t.v, src)
@@ -71,6 +73,10 @@ X2(st, I) ==
     [] st.s = "except" -> Py2(st) \o (IF st.name = "" THEN <<>> ELSE After(I, st.name, <<"E">>))
     [] st.s = "with" -> Py2(st) \o (IF WithRewritten /\ st.t # "" THEN After(I, st.t, <<"W">>) ELSE <<>>)   \* visit_With since fix 2ab3d3a
     [] st.s = "import" -> Py2(st) \o After(I, st.name, <<"M">>)
+    [] st.s = "match" ->       \* visit_match_case since fix 6ec7608: one interaction per captured name at the head of the case body;
+                               \* before, the names were taken for globals and prefetched at entry: the call failed there
+         IF MatchCapturesKnown THEN Py2(st) \o Cat(LAMBDA i : After(I, st.names[i], <<"V", ToString(i - 1)>>), Len(st.names))
+         ELSE IF \E i \in DOMAIN st.names : Instr(I, st.names[i]) THEN << <<"nameerror-at-entry">> >> ELSE Py2(st)
     [] st.s = "return" -> PyEval(st.e) \o (IF Instr(I, "#value") THEN << <<"interact", "#value", "none", <<"V">>>> >> ELSE <<>>) \o << <<"return", <<"V">>>> >>
     [] st.s = "falloff" ->                                                 \* since fix a77403d the body ends with an instrumented `return None`
          (IF FallOffRewritten /\ Instr(I, "#value") THEN << <<"interact", "#value", "none", <<"None">>>> >> ELSE <<>>) \o Py2(st)
@@ -85,7 +91,8 @@ Given(st, I) == LET b == SelectSeq(X2(st, I), LAMBDA a : a[1] = "interact" /\ a[
 Stream2(st, I) == Given(st, I) = Owed(st, I)
 Signature2(st, I) ==
   LET x == X2(st, I) IN
-  IF NotImpl(x) THEN {"LoopTargetNotImplemented"}
+  IF \E i \in DOMAIN x : x[i][1] = "nameerror-at-entry" THEN {"MatchCaptureTakenForGlobal"}
+  ELSE IF NotImpl(x) THEN {"LoopTargetNotImplemented"}
   ELSE IF st.s = "decl" /\ Instr(I, st.v) THEN {"DeclaredOnlySupplied"}          \* the documented exception of C01 (C16 decides it)
   ELSE (IF ~Transparent2(st, I) THEN {"OtherOrder"} ELSE {}) \cup
        (IF Stream2(st, I) THEN {}
@@ -97,7 +104,7 @@ Signature2(st, I) ==
 LoopElts == {Nm("a"), Nm("b"), St("c"), At("o", "p"), Sb("o", 7)}
 LoopTargets == {Nm("a"), At("o", "p"), Sb("o", 7)} \cup {Tp(s) : s \in {x \in Seqs(LoopElts, 2) : OneStar(x)}}
                \cup {Tp(<<Nm("a"), Tp(<<Nm("b"), Nm("c")>>)>>), Tp(<<Tp(<<Nm("a"), St("c")>>), Nm("b")>>)}
-Stmts2 == {Aug(t) : t \in Atoms} \cup {Ann("a"), Decl("a"), Walrus("a"), Except("a"), Except(""), With("w"), With(""), Import("a"), Return, FallOff}
+Stmts2 == {Aug(t) : t \in Atoms} \cup {Ann("a"), Decl("a"), Walrus("a"), Except("a"), Except(""), With("w"), With(""), Import("a"), Return, FallOff, Match(<<"a">>), Match(<<"a", "b">>), Match(<<"b", "a", "c">>)}
           \cup {For(t) : t \in LoopTargets}
 InstrSets2 == {{"*"}} \cup SUBSET {"a", "b", "c", "o", "w", "#value"}
 =============================================================================
